@@ -1,8 +1,304 @@
 package harness
 
+// Driver for the v1 (root module) Batcher: runs one Scenario against the real code inside a
+// synctest bubble and logs everything observable.
+
 import (
+	"context"
+	"fmt"
 	"io"
+	"sync"
+	"sync/atomic"
 	"testing"
+	"testing/synctest"
+	"time"
+
+	b1 "github.com/mspnp/go-batcher"
 )
 
-func RunBatcherV1(t *testing.T, sc *Scenario, out io.Writer) { t.Fatal("v1 not yet") }
+// ----- fake rate limiter -----
+
+type fakeLimiter1 struct {
+	log    *Logger
+	cap    atomic.Uint32
+	maxcap atomic.Uint32
+}
+
+func (f *fakeLimiter1) MaxCapacity() uint32 { return f.maxcap.Load() }
+func (f *fakeLimiter1) Capacity() uint32 {
+	f.log.Logf("L", "capread")
+	return f.cap.Load()
+}
+func (f *fakeLimiter1) GiveMe(v uint32)                 { f.log.Logf("L", "giveme %d", v) }
+func (f *fakeLimiter1) Start(ctx context.Context) error     { return nil }
+func (f *fakeLimiter1) Provision(ctx context.Context) error { return nil }
+func (f *fakeLimiter1) Stop()                               {}
+
+// ----- operation whose cost changes once it has been handed to its watcher -----
+
+type shiftyOp1 struct {
+	w         b1.IWatcher
+	cost      uint32
+	costDone  uint32
+	batchable bool
+	payload   interface{}
+	attempt   atomic.Uint32
+}
+
+func (o *shiftyOp1) Payload() interface{} { return o.payload }
+func (o *shiftyOp1) Attempt() uint32      { return o.attempt.Load() }
+func (o *shiftyOp1) Cost() uint32 {
+	if o.attempt.Load() > 0 {
+		return o.costDone
+	}
+	return o.cost
+}
+func (o *shiftyOp1) Watcher() b1.IWatcher { return o.w }
+func (o *shiftyOp1) IsBatchable() bool   { return o.batchable }
+func (o *shiftyOp1) MakeAttempt()        { o.attempt.Add(1) }
+
+func classify1(err error) int {
+	switch err.(type) {
+	case nil:
+		return ROk
+	case b1.NoOperationError:
+		return RNoOp
+	case b1.NoWatcherError:
+		return RNoWatcher
+	case b1.TooExpensiveError:
+		return RTooExpensive
+	case b1.TooManyAttemptsError:
+		return RTooManyAttempts
+	case b1.BufferFullError:
+		return RBufferFull
+	}
+	return ROther
+}
+
+type v1run struct {
+	sc      *Scenario
+	log     *Logger
+	b       b1.IBatcher
+	lim     *fakeLimiter1
+	ws      []b1.IWatcher
+	objs    map[int64]b1.IOperation
+	durs    sync.Map // obj id -> callback duration (ns) of the most recent enqueue spec
+	holds   sync.Map // op -> chan struct{}
+	calls   sync.Map // call id -> chan struct{} (hold channel), for release
+	pending atomic.Int64
+	ncall   int64
+}
+
+func opIDs1(ops []b1.IOperation) []int64 {
+	ids := make([]int64, len(ops))
+	for i, o := range ops {
+		ids[i] = payloadID(o.Payload())
+	}
+	return ids
+}
+
+func (r *v1run) listener(event string, val int, msg string, metadata interface{}) {
+	switch event {
+	case b1.BatchEvent:
+		ops, _ := metadata.([]b1.IOperation)
+		w := -1
+		if len(ops) > 0 {
+			for i, ww := range r.ws {
+				if ww == ops[0].Watcher() {
+					w = i
+				}
+			}
+		}
+		r.log.Logf("L", "batch %d %s", w, idsString(opIDs1(ops)))
+	case b1.PauseEvent:
+		r.log.Logf("L", "pause %d", val)
+	case b1.ResumeEvent:
+		r.log.Logf("L", "resume")
+	case b1.ShutdownEvent:
+		r.log.Logf("L", "shutdown")
+	case b1.AuditSkipEvent:
+		r.log.Logf("L", "auditskip")
+	case b1.AuditPassEvent:
+		r.log.Logf("L", "auditpass")
+	case b1.AuditFailEvent:
+		tb, ib := 1, 0
+		r.log.Logf("L", "auditfail %d %d", tb, ib)
+	case b1.RequestEvent:
+		r.log.Logf("L", "request %d", val)
+	default:
+		r.log.Logf("L", "unknown-event %s %d", event, val)
+	}
+}
+
+func (r *v1run) makeWatcher(idx int, wc WCfg) b1.IWatcher {
+	w := b1.NewWatcher(func(batch []b1.IOperation) {
+		ids := opIDs1(batch)
+		att := make([]int64, len(batch))
+		for i, o := range batch {
+			att[i] = int64(o.Attempt())
+		}
+		s := idsString(ids)
+		for _, a := range att {
+			s += fmt.Sprintf(" %d", a)
+		}
+		r.log.Logf("O", "cbstart %d %s", idx, s)
+		var dur int64
+		if len(ids) > 0 {
+			if d, ok := r.durs.Load(ids[0]); ok {
+				dur = d.(int64)
+			}
+		}
+		if dur > 0 {
+			time.Sleep(time.Duration(dur))
+		}
+		r.log.Logf("O", "cbret %d %s", idx, idsString(ids))
+	})
+	return w.WithMaxBatchSize(wc.MaxBatch).WithMaxAttempts(wc.MaxAttempts).WithMaxOperationTime(time.Duration(wc.MaxOp))
+}
+
+func (r *v1run) sample() {
+	r.log.Logf("D", "sample %d %d %d %d", r.b.NeedsCapacity(), r.b.OperationsInBuffer(), 0, r.pending.Load())
+}
+
+func (r *v1run) getOp(obj int64, w int64, cost, costDone uint32, batchable bool) b1.IOperation {
+	if o, ok := r.objs[obj]; ok {
+		return o
+	}
+	var wt b1.IWatcher
+	if w >= 0 {
+		wt = r.ws[w]
+	}
+	var o b1.IOperation
+	if cost != costDone {
+		o = &shiftyOp1{w: wt, cost: cost, costDone: costDone, batchable: batchable, payload: obj}
+	} else {
+		o = b1.NewOperation(wt, cost, obj, batchable)
+	}
+	r.objs[obj] = o
+	return o
+}
+
+func (r *v1run) doStep(st Step) {
+	switch st.Kind {
+	case "start":
+		r.log.Logf("D", "act start")
+		err := r.b.Start()
+		r.log.Logf("O", "startret %d", b2i(err == nil))
+	case "pause":
+		r.log.Logf("D", "act pause")
+		r.b.Pause()
+	case "flush":
+		r.log.Logf("D", "act flush")
+		r.b.Flush()
+	case "stop":
+		r.log.Logf("D", "act stop")
+		go func() {
+			r.b.Stop()
+			r.log.Logf("O", "stopret")
+		}()
+	case "setcap":
+		r.log.Logf("D", "act setcap %d", st.A[0])
+		r.lim.cap.Store(uint32(st.A[0]))
+	case "setmaxcap":
+		r.log.Logf("D", "act setmaxcap %d", st.A[0])
+		r.lim.maxcap.Store(uint32(st.A[0]))
+	case "probe":
+		r.log.Logf("D", "act probe")
+	case "release":
+		r.log.Logf("D", "act release %d", st.A[0])
+		if ch, ok := r.calls.Load(st.A[0]); ok {
+			close(ch.(chan struct{}))
+			r.calls.Delete(st.A[0])
+		}
+	case "enq":
+		// A: nil w obj cost costdone batchable dur hold
+		isNil, w, obj, cost, costDone, batchable, dur, hold := st.A[0] != 0, st.A[1], st.A[2], st.A[3], st.A[4], st.A[5] != 0, st.A[6], st.A[7] != 0
+		call := r.ncall
+		r.ncall++
+		r.log.Logf("D", "act enq %d %d %d %d %d %d %d %d", b2i(isNil), w, obj, cost, costDone, b2i(batchable), dur, b2i(hold))
+		var op b1.IOperation
+		if !isNil {
+			op = r.getOp(obj, w, uint32(cost), uint32(costDone), batchable)
+			r.durs.Store(obj, dur)
+			if hold {
+				ch := make(chan struct{})
+				r.holds.Store(op, ch)
+				r.calls.Store(call, ch)
+			}
+		}
+		r.pending.Add(1)
+		go func() {
+			res := ROther
+			defer func() {
+				if e := recover(); e != nil {
+					res = RPanic
+				}
+				r.pending.Add(-1)
+				r.log.Logf("O", "enqret %d %d", call, res)
+			}()
+			res = classify1(r.b.Enqueue(op))
+		}()
+	default:
+		panic("unknown step kind " + st.Kind)
+	}
+}
+
+// RunBatcherV1 runs sc and writes the history to out. It returns false if the
+// bubble could not be wound down (goroutines blocked for ever).
+func RunBatcherV1(t *testing.T, sc *Scenario, out io.Writer) {
+	synctest.Test(t, func(t *testing.T) {
+		start := time.Now()
+		lg := NewLogger(out, start)
+		currentLogger.Store(lg)
+		sc.WriteHeader(lg.w)
+		r := &v1run{sc: sc, log: lg, objs: map[int64]b1.IOperation{}}
+		r.lim = &fakeLimiter1{log: lg}
+		for i, wc := range sc.Watchers {
+			r.ws = append(r.ws, r.makeWatcher(i, wc))
+		}
+		b := b1.NewBatcherWithBuffer(uint32(sc.BufCap)).
+			WithFlushInterval(time.Duration(sc.Flush)).
+			WithCapacityInterval(time.Duration(sc.CapInt)).
+			WithAuditInterval(time.Duration(sc.Audit)).
+			WithMaxOperationTime(time.Duration(sc.MaxOp)).
+			WithPauseTime(time.Duration(sc.Pause)).
+			WithEmitBatch()
+		if sc.ErrFull {
+			b = b.WithErrorOnFullBuffer()
+		}
+		if sc.Limiter {
+			b = b.WithRateLimiter(r.lim)
+		}
+		r.b = b
+		b.AddListener(r.listener)
+		b1.VerifSetHook(func(name string, arg interface{}) {
+			if name != "enqueue:counted" {
+				return
+			}
+			if ch, ok := r.holds.LoadAndDelete(arg); ok {
+				<-ch.(chan struct{})
+			}
+		})
+		defer b1.VerifSetHook(func(string, interface{}) {})
+
+		for _, st := range sc.Steps {
+			d := time.Duration(st.At) - time.Since(start)
+			if d > 0 {
+				time.Sleep(d)
+			}
+			r.doStep(st)
+			synctest.Wait()
+			r.sample()
+			lg.Flush()
+		}
+		// wind-down: release parked callers, cancel, let every timer run out
+		lg.Raw("winddown")
+		r.calls.Range(func(k, v interface{}) bool { close(v.(chan struct{})); return true })
+		go r.b.Stop()
+		time.Sleep(time.Duration(sc.Tail))
+		synctest.Wait()
+		lg.Logf("D", "end %d", r.pending.Load())
+		lg.Raw("eof")
+		lg.Flush()
+	})
+}
